@@ -466,12 +466,13 @@ func checkC19(c *Ctx) {
 		}
 		m := c.Mod(a.mod)
 		short := a.curve
-		T1, T2, T3, G1, G2, W1 := "C19.T1", "C19.T2", "C19.T3", "C19.G1", "C19.G2", "C19.W1"
+		T1, T2, T3, G1, G2, G3, W1 := "C19.T1", "C19.T2", "C19.T3", "C19.G1", "C19.G2", "C19.G3", "C19.W1"
 		c.Rule(T1, "keys(msgURL2Round) = message types registered in the adapter's tss-lib version", 20)
 		c.Rule(T2, "broadcastMessages = types constructed with IsBroadcast:true", 20)
 		c.Rule(T3, "distinct effective rounds ≤127 per phase among broadcast types; class/round from the received type URL", 16)
 		c.Rule(G1, "p.in <- msg dominated by claimed == from, claimed ← msg.GetFrom()", 2)
 		c.Rule(G2, "Sign returns a signature only under bytes.Equal(sigOut.M, f(msgHash))", 2)
+		c.Rule(G3, "the seat a message is attributed to is that of the party whose key equals the transport sender", 6)
 		c.Rule(W1, "tables are never written after initialisation", 2)
 		var urls []string
 		for u := range t.expected {
@@ -514,6 +515,7 @@ func checkC19(c *Ctx) {
 		ruleAdapterClassifyProvenance(c, T3, a)
 		ruleAdapterSenderBinding(c, G1, a)
 		ruleAdapterDigestBinding(c, G2, a)
+		ruleAdapterSeatBinding(c, G3, a)
 		// W1: no writes to the tables
 		for _, fn := range m.PkgFuncs(a.pkg) {
 			c.Analysed(FuncName(fn))
@@ -710,5 +712,159 @@ func ruleAdapterDigestBinding(c *Ctx, rule string, a adapterInfo) {
 	}
 	if n == 0 {
 		c.Bad(rule, FuncName(fn), "successful return of Sign", "-", "Sign has no successful return")
+	}
+}
+
+// ruleAdapterSeatBinding (G3): tss-lib attributes a parsed message by From.Index alone (the wire bytes
+// carry no sender), so the sender binding of the adapter is the seat lookup: the identity handed to
+// ParseWireMessage is built from the transport sender, its Index comes from the lookup on that same
+// identity, and the lookup returns a seat only for the party whose key EQUALS the given key.
+func ruleAdapterSeatBinding(c *Ctx, rule string, a adapterInfo) {
+	m := c.Mod(a.mod)
+	fn := c.mustFunc(m, a.pkg, "party", "OnMsg")
+	if fn == nil {
+		return
+	}
+	from := fn.Params[2]
+	sl := NewSlicer(m, a.pkg)
+	var locate *ssa.Function
+	nParse := 0
+	for _, in := range instrsOf(fn) {
+		cl, ok := in.(*ssa.Call)
+		if !ok {
+			continue
+		}
+		o := calleeObj(&cl.Call)
+		if o == nil || o.Name() != "ParseWireMessage" || len(cl.Call.Args) < 2 {
+			continue
+		}
+		nParse++
+		id := strip(cl.Call.Args[1])
+		// identity built from the transport sender
+		okKey := false
+		if mk, isCall := id.(*ssa.Call); isCall {
+			if mo := calleeObj(&mk.Call); mo != nil && mo.Name() == "NewPartyID" && len(mk.Call.Args) == 3 {
+				okKey = sl.Slice(mk.Call.Args[2])[from]
+			}
+		}
+		c.Check(okKey, rule, FuncName(fn), "identity given to ParseWireMessage", m.Pos(cl.Pos()), "tss.NewPartyID(.., key ← from)",
+			"the identity under which the received bytes are parsed is not built from the transport-authenticated sender")
+		// its Index is the result of the lookup on the same identity, stored before parsing
+		okIdx := false
+		for _, in2 := range instrsOf(fn) {
+			st, isSt := in2.(*ssa.Store)
+			if !isSt {
+				continue
+			}
+			fa, isFA := st.Addr.(*ssa.FieldAddr)
+			if !isFA || fieldOfAddr(fa).Name() != "Index" {
+				continue
+			}
+			// Index lives in the embedded MessageWrapper_PartyID or directly in PartyID
+			base := strip(fa.X)
+			if ld, isLd := base.(*ssa.UnOp); isLd && ld.Op == token.MUL {
+				if fa2, ok := ld.X.(*ssa.FieldAddr); ok {
+					base = strip(fa2.X)
+				}
+			}
+			if base != id {
+				continue
+			}
+			lc, isCall := strip(st.Val).(*ssa.Call)
+			if !isCall {
+				continue
+			}
+			cal := staticCallee(&lc.Call)
+			if cal == nil || pkgPathOf(cal) != a.pkg || len(lc.Call.Args) < 2 || strip(lc.Call.Args[len(lc.Call.Args)-1]) != id {
+				continue
+			}
+			if instrDominates(st, cl) {
+				okIdx = true
+				locate = cal
+			}
+		}
+		c.Check(okIdx, rule, FuncName(fn), "seat of the identity", m.Pos(cl.Pos()), "id.Index = locatePartyIndex(id) before parsing",
+			"the seat index of the sender identity is not the result of the adapter's lookup on that identity")
+	}
+	if nParse == 0 {
+		c.Bad(rule, FuncName(fn), "ParseWireMessage call", "-", "OnMsg does not parse the received bytes with tss.ParseWireMessage")
+		return
+	}
+	if locate == nil {
+		return
+	}
+	c.Analysed(FuncName(locate))
+	idParam := locate.Params[len(locate.Params)-1]
+	// keyOf: v is (derived by single-input steps from) the key of `owner`
+	keyRoot := func(v ssa.Value) ssa.Value {
+		var root ssa.Value
+		chainTo(strip(v), func(x ssa.Value) bool {
+			x = strip(x)
+			if x == ssa.Value(idParam) {
+				root = x
+				return true
+			}
+			if ld, ok := x.(*ssa.UnOp); ok && ld.Op == token.MUL {
+				if ia, ok := ld.X.(*ssa.IndexAddr); ok {
+					root = ia
+					return true
+				}
+			}
+			return false
+		})
+		return root
+	}
+	nRet := 0
+	for _, in := range instrsOf(locate) {
+		r, ok := in.(*ssa.Return)
+		if !ok {
+			continue
+		}
+		res := retResult(r, 0)
+		if k, isK := constInt(res); isK {
+			if k < 0 {
+				continue
+			}
+		}
+		nRet++
+		okEq := hasFact(FactsAt(r), func(f Fact) bool {
+			var x, y ssa.Value
+			switch {
+			case f.Op == 0 && f.True:
+				cl, ok := f.Bool.(*ssa.Call)
+				if !ok || !isCallTo(&cl.Call, "bytes", "Equal") {
+					return false
+				}
+				x, y = cl.Call.Args[0], cl.Call.Args[1]
+			case f.Op == token.EQL && isZero(f.Y):
+				cl, ok := strip(f.X).(*ssa.Call)
+				if !ok {
+					return false
+				}
+				o := calleeObj(&cl.Call)
+				if o == nil || o.Name() != "Cmp" || len(cl.Call.Args) != 2 {
+					return false
+				}
+				x, y = cl.Call.Args[0], cl.Call.Args[1]
+			default:
+				return false
+			}
+			for _, pr := range [][2]ssa.Value{{x, y}, {y, x}} {
+				ia, isIA := keyRoot(pr[0]).(*ssa.IndexAddr)
+				if !isIA || keyRoot(pr[1]) != ssa.Value(idParam) {
+					continue
+				}
+				if sameValue(ia.Index, res) || strip(ia.Index) == strip(res) {
+					return true
+				}
+			}
+			return false
+		})
+		c.Check(okEq, rule, FuncName(locate), "seat returned only for an equal key", m.Pos(r.Pos()),
+			"return i dominated by key(IDs()[i]) == key(id)",
+			"the lookup can return the seat of a party whose key differs from the given one: a message received from a node outside the session (or from another member) is attributed to that party's seat, and tss-lib processes it as that party's message")
+	}
+	if nRet == 0 {
+		c.Bad(rule, FuncName(locate), "seat lookup", "-", "the lookup never returns a seat")
 	}
 }
